@@ -36,14 +36,14 @@ UNIT = Unit(
         Fn(file=L, name="collect_captured", attrs="#[verifier::loop_isolation(false)]",
            obligation="captured' = captured + (free variables of expr not locally bound, restricted to the scope); bound stack restored",
            rewrites=[(re.compile(r"\bn == name\b"), "string_eq(n, name)", 1), ("let __k0 = name.clone();", "let __k0 = string_clone(name);"),
-                     ("entry.ty.clone()", "ty_clone(&entry.ty)"), ("bound.push(name.clone());", "bound.push(string_clone(name));")],
+                     ("entry.ty.clone()", "ty_clone(&entry.ty)"), (re.compile(r"bound\.push\(name\.clone\(\)\);"), "bound.push(string_clone(name));", "*")],
            contract=f"""ensures final(bound)@ == old(bound)@,
             cap_ok({OC}, final(captured)@, free_in(*expr, {BS}), scope@),
         decreases *expr,""",
            ghost=[("@entry", "", "proof { if let LiftExpr::EVar { name, .. } = expr { lemma_names_contains(bound@, name@); } }"),
                   ("@entry", "", "proof { reveal_with_fuel(free_in, 2); reveal_with_fuel(free_list, 2); reveal_with_fuel(free_arms, 2); }"),
-                  ("bound.push(", "line-after", "proof { lemma_names_push(old(bound)@, bound@.last()); assert(bound@ =~= old(bound)@.push(bound@.last())); }"),
-                  ("bound.pop();", "line-after", "proof { assert(bound@ =~= old(bound)@); }")],
+                  ("?bound.push(", "line-after", "proof { lemma_names_push(old(bound)@, bound@.last()); assert(bound@ =~= old(bound)@.push(bound@.last())); }"),
+                  ("?bound.pop();", "line-after", "proof { assert(bound@ =~= old(bound)@); }")],
            loops={
                0: "invariant __i0 <= bound.len(), !__r0 ==> forall|j: int| 0 <= j < __i0 ==> (#[trigger] bound@[j])@ != name@, __r0 ==> exists|j: int| 0 <= j < bound@.len() && (#[trigger] bound@[j])@ == name@, bound@ == old(bound)@, captured@ == old(captured)@,\n decreases bound.len() - __i0,",
                1: linv(0, "args"),
